@@ -25,13 +25,13 @@ import (
 	"verif/internal/ev"
 )
 
-const rule = "cases = rapid-drawn scenarios (registry mode long/short idle limit/short lifetime limit, 2-5 logical clients each holding at most one transaction, " +
+const rule = "cases = rapid-drawn scenarios (registry mode long/short idle limit/short lifetime limit/aged (idle limit 20-50 ms, lifetime 10x, drawn warning threshold), 2-5 logical clients each holding at most one transaction, " +
 	"6-32 steps over begin{direct,Registry.Begin,service RPC; ro/rw; optional 20-100 ms deadline or caller cancels before/at/50us after the lock grant}/write_tx(=begin rw+put+commit)/put/del/get/scan/commit{optionally on an injected ApplyBatch fault}/rollback{every service call with a live, cancelled or expired request context}/abandon/rejected TxGet/" +
 	"CleanupStaleTransactions/CleanupConnection/GracefulShutdown, drawn way of ending what is still open), each executed in a child process on its own engine; " +
 	"oracle = lock-aware model (who holds the RW lock, which begins are queued) + map model of the database + closed-error rule + 'a fresh read-write " +
 	"transaction begins within 5 s and put+commit works' after every scenario (scenarios with a timed-out begin are run 4 times); " +
 	"non-trivial = the executed scenario contains a begin that timed out while queued for the lock, a begin whose caller gives up at the moment the lock is granted, " +
-	"a commit that hit an injected storage fault, a service call on an open transaction whose request context is already cancelled or expired, an abandoned transaction cleaned up by the server, " +
+	"a slow commit overlapped by a second finisher or a server-side cleanup of the same transaction, a sweep that meets a transaction in the last quarter of its lifetime, a commit that hit an injected storage fault, a service call on an open transaction whose request context is already cancelled or expired, an abandoned transaction cleaned up by the server, " +
 	"or a repeated commit/rollback while another client holds or waits for the lock; distinct by FNV-64 of the case JSON"
 
 // KV is one initial database entry.
@@ -55,6 +55,9 @@ type Step struct {
 	GiveUp     string `json:"give_up,omitempty"`     // begin (reg/svc): the caller's context is cancelled before_grant | at_grant | soon_after the lock is granted inside Registry.Begin
 	Ctx        string `json:"ctx,omitempty"`         // request context of a service call: "" live | cancelled | expired (dead before the handler runs); begin: registry path too
 	DeadAt     string `json:"dead_at,omitempty"`     // write_tx on the service path with a dead Ctx: which call gets it: op (the put) | commit | rollback (instead of the commit)
+	SlowMs     int    `json:"slow_ms,omitempty"`     // commit/write_tx (registry or service path, wrapped backend): the storage takes this long for the batch, and meanwhile ...
+	During     string `json:"during,omitempty"`      // ... commit | rollback (second finisher on the same handle) | cleanup_conn | cleanup_stale | shutdown happens
+	AgePct     int    `json:"age_pct,omitempty"`     // cleanup_stale in aged mode: first wait until the oldest registered holder is at this % of its lifetime limit
 	Fault      bool   `json:"fault,omitempty"`       // commit/write_tx: the storage refuses the batch of this commit (wrapped backend only)
 	K          int    `json:"k,omitempty"`
 	V          string `json:"v,omitempty"`
@@ -67,13 +70,15 @@ type Step struct {
 
 // Case is one generated scenario.
 type Case struct {
-	Mode    string `json:"mode"`              // long | short_idle | short_ttl
-	Backend string `json:"backend,omitempty"` // "" = transactions from the engine's own manager; wrapped = own manager over the engine's storage manager behind the fault-injecting pass-through
-	LimitMs int    `json:"limit_ms"`
-	Clients int    `json:"clients"`
-	Init    []KV   `json:"init,omitempty"`
-	Steps   []Step `json:"steps"`
-	End     string `json:"end"` // rollback | conn | stale | shutdown | commit_dead_ctx | rollback_dead_ctx (service transactions: finish call with a cancelled request context first)
+	Mode      string `json:"mode"`              // long | short_idle | short_ttl
+	Backend   string `json:"backend,omitempty"` // "" = transactions from the engine's own manager; wrapped = own manager over the engine's storage manager behind the fault-injecting pass-through
+	LimitMs   int    `json:"limit_ms"`
+	Warn      int    `json:"warn,omitempty"`        // registry warning threshold in % of the lifetime limit (critical = +25, at most 95); 0 = 75/90
+	EndAgePct int    `json:"end_age_pct,omitempty"` // aged mode: age band (% of the lifetime limit) in which the final sweep meets the oldest holder
+	Clients   int    `json:"clients"`
+	Init      []KV   `json:"init,omitempty"`
+	Steps     []Step `json:"steps"`
+	End       string `json:"end"` // rollback | conn | stale | shutdown | commit_dead_ctx | rollback_dead_ctx (service transactions: finish call with a cancelled request context first)
 }
 
 // Result is what the child reports.
@@ -117,11 +122,11 @@ func childMain(specPath, resPath string) {
 		os.Stdout = f
 	}
 	res := &Result{Counters: map[string]int{}}
+	curRes, curResPath = res, resPath
 	write := func() {
-		b, _ := json.Marshal(res)
-		tmp := resPath + ".tmp"
-		_ = os.WriteFile(tmp, b, 0o644)
-		_ = os.Rename(tmp, resPath)
+		curResMu.Lock()
+		defer curResMu.Unlock()
+		writeResult()
 	}
 	b, err := os.ReadFile(specPath)
 	if err != nil {
@@ -137,6 +142,7 @@ func childMain(specPath, resPath string) {
 	}
 	scratch := filepath.Dir(specPath)
 	startHeartbeat()
+	startWatchdog()
 	feats := map[string]bool{}
 	reps := 1
 	for rep := 0; rep < reps; rep++ {
@@ -309,6 +315,10 @@ var keyTable = []int{0, 0, 0, 1, 2}
 var ctxTable = []string{"", "", "", "", "", "cancelled", "cancelled", "cancelled", "expired", "expired"}
 var ctxBeginTable = []string{"", "", "", "", "", "", "", "", "cancelled", "expired"}
 
+// slow commits (ms inside the storage) and what happens to the same transaction meanwhile
+var slowTable = []int{0, 0, 0, 0, 0, 2, 2, 5, 10, 30}
+var duringTable = []string{"commit", "rollback", "rollback", "cleanup_conn", "cleanup_stale", "shutdown"}
+
 func genStep(t *rapid.T) Step {
 	s := Step{Op: rapid.SampledFrom(opTable).Draw(t, "op"), C: rapid.IntRange(0, 11).Draw(t, "c")}
 	switch s.Op {
@@ -341,7 +351,14 @@ func genStep(t *rapid.T) Step {
 		s.V = fmt.Sprintf("w%d", rapid.IntRange(0, 999).Draw(t, "v"))
 		s.Keep = rapid.IntRange(0, 9).Draw(t, "keep") < 3
 		s.Fault = rapid.IntRange(0, 9).Draw(t, "fault") < 5
-		if s.Path == "svc" {
+		if s.Path != "direct" {
+			s.SlowMs = rapid.SampledFrom(slowTable).Draw(t, "slow_ms")
+			s.During = rapid.SampledFrom(duringTable).Draw(t, "during")
+			if s.SlowMs == 0 {
+				s.During = ""
+			}
+		}
+		if s.Path == "svc" && s.SlowMs == 0 {
 			s.Ctx = rapid.SampledFrom(ctxTable).Draw(t, "ctx")
 			s.DeadAt = rapid.SampledFrom([]string{"commit", "rollback", "op"}).Draw(t, "dead_at")
 			if s.Ctx == "" {
@@ -367,6 +384,17 @@ func genStep(t *rapid.T) Step {
 			s.Fault = rapid.IntRange(0, 9).Draw(t, "fault") < 5
 		}
 		s.Ctx = rapid.SampledFrom(ctxTable).Draw(t, "ctx")
+		if s.Op == "commit" {
+			s.SlowMs = rapid.SampledFrom(slowTable).Draw(t, "slow_ms")
+			s.During = rapid.SampledFrom(duringTable).Draw(t, "during")
+			if s.SlowMs == 0 {
+				s.During = ""
+			} else {
+				s.Ctx = ""
+			}
+		}
+	case "cleanup_stale":
+		s.AgePct = rapid.SampledFrom([]int{0, 30, 60, 80, 80, 95}).Draw(t, "age_pct")
 	case "cleanup_conn":
 		s.Peer = rapid.IntRange(0, 9).Draw(t, "peer") < 8
 		s.Svc = rapid.Bool().Draw(t, "via_service")
@@ -382,15 +410,22 @@ func genStep(t *rapid.T) Step {
 
 func genCase(t *rapid.T) Case {
 	c := Case{
-		Mode:    rapid.SampledFrom([]string{"long", "long", "short_idle", "short_ttl"}).Draw(t, "mode"),
+		Mode:    rapid.SampledFrom([]string{"long", "long", "short_idle", "short_ttl", "aged", "aged"}).Draw(t, "mode"),
 		Clients: rapid.IntRange(2, 5).Draw(t, "clients"),
 		End:     rapid.SampledFrom([]string{"rollback", "conn", "stale", "shutdown", "commit_dead_ctx", "rollback_dead_ctx"}).Draw(t, "end"),
 	}
 	if rapid.IntRange(0, 2).Draw(t, "wrapped_backend") > 0 {
 		c.Backend = "wrapped"
 	}
+	if c.Mode == "aged" {
+		c.Warn = rapid.SampledFrom([]int{0, 50}).Draw(t, "warn")
+		c.EndAgePct = rapid.SampledFrom([]int{60, 80, 80, 95}).Draw(t, "end_age_pct")
+	}
 	if c.Mode != "long" {
 		c.LimitMs = rapid.SampledFrom([]int{20, 30, 50}).Draw(t, "limit_ms")
+		if c.Mode == "aged" && c.LimitMs > 30 {
+			c.LimitMs = 30 // lifetime limit = 10 x: keep the waiting short
+		}
 	}
 	nInit := rapid.IntRange(0, 3).Draw(t, "n_init")
 	for i := 0; i < nInit; i++ {
@@ -408,7 +443,7 @@ func classify(res *Result) (nontrivial bool, classes []string) {
 		f[x] = true
 		classes = append(classes, x)
 	}
-	nontrivial = f["late_begin"] || f["cancel_at_grant"] || f["commit_fault_injected"] || f["ctx_dead_at_commit"] || f["ctx_dead_at_rollback"] || f["ctx_dead_at_op"] || f["ctx_dead_at_begin"] || f["abandoned_cleaned"] || f["double_finish_contended"]
+	nontrivial = f["late_begin"] || f["finish_overlapped"] || f["aged_sweep_warning_to_critical"] || f["aged_sweep_above_critical"] || f["cancel_at_grant"] || f["commit_fault_injected"] || f["ctx_dead_at_commit"] || f["ctx_dead_at_rollback"] || f["ctx_dead_at_op"] || f["ctx_dead_at_begin"] || f["abandoned_cleaned"] || f["double_finish_contended"]
 	if nontrivial {
 		classes = append(classes, "nontrivial")
 	}
